@@ -45,7 +45,15 @@ def compute(req: dict) -> dict:
                                    newline=req.get("newline"))
         return Chart.from_file(fp) if sel is None else Chart.from_file(fp, want_tracks=sel)
 
-    out = outcome(run)
+    if req.get("logging_off"):
+        import logging
+
+        logging.disable(logging.CRITICAL)
+    try:
+        out = outcome(run)
+    finally:
+        if req.get("logging_off"):
+            logging.disable(logging.NOTSET)
     out["log"] = world.drain_log()
     return out
 
